@@ -204,6 +204,10 @@ func checkC09Run(h *HistSpec) Result {
 	if err := checkPrefix("SafeFormat method under Sprint", h.Ops, outSF); err != nil {
 		return fail(err)
 	}
+	// StringWithoutMarkers: the String() twin of a SafeFormat method
+	if got := redact.StringWithoutMarkers(newSafeFmtV(h.Ops, 0)); got != string(strip(outSF)) {
+		return fail(fmt.Errorf("StringWithoutMarkers gives %s, Sprint stripped gives %s", qs(got), q(strip(outSF))))
+	}
 	// the flags of %+v and %#v are not handed to the safe methods: the
 	// payloads land unchanged under these directives too
 	if exact {
